@@ -54,6 +54,7 @@ CDEF = "int c37_v; long c37_w; int c37_f(int); long c37_g(long);"
 _CN = frozenset(CNAME.values())
 MODES = ("inline", "ool")
 WVAL = {"v": 1234, "w": -77}
+PROBE_DEPTH = 3          # histories up to this length get the dealloc-after-close probe (see Sys.close)
 
 _state = {}
 
@@ -165,6 +166,7 @@ class Sys(object):
         self.fetched = set()         # functions fetched while open
         self.addr = set()            # variables whose address was taken while open
         self.val = {"v": 10, "w": 20}
+        self.nops = 0
         self.touched = set()         # variables read or written so far (their accessor / address is cached)
         self.dir_done = False        # dir(lib) or any attribute access happened (in-line: accessor table built)
         self.frozen = None           # (fetched, addr) at the time of the first close
@@ -207,6 +209,7 @@ class Sys(object):
         return d
 
     def apply(self, op):
+        self.nops += 1
         if op[0] != "close":
             self.dir_done = True
         if op[0] in ("rd", "wr"):
@@ -326,6 +329,26 @@ class Sys(object):
         return None
 
     def close(self):
+        """End of a history (short histories only, it costs a full garbage collection): the library object is
+        dropped *after* it was closed explicitly; its deallocation is one more implicit close and must be as
+        harmless as an explicit one.  A probe library opened in between (through _ctypes, not cffi) must survive."""
+        if not self.closed or self.nops > PROBE_DEPTH or self.lib is None:
+            return None
+        import _ctypes
+        import gc
+        probe = _private_copy()
+        try:
+            h = _ctypes.dlopen(probe, os.RTLD_NOW)
+        finally:
+            os.unlink(probe)
+        self.dispose()
+        gc.collect()
+        alive = _still_loaded(probe)
+        _COUNTS["dealloc-after-close/probe-" + ("alive" if alive else "gone")] = \
+            _COUNTS.get("dealloc-after-close/probe-" + ("alive" if alive else "gone"), 0) + 1
+        if not alive:
+            return {"kind": "dealloc-after-close-unloaded-another-library", "mode": self.mode, "cfg": list(self.cfg)}
+        _ctypes.dlclose(h)
         return None
 
 
@@ -530,6 +553,10 @@ def replay(detail):
     print("mode", cfg[0])
     for op in detail["history"]:
         op = tuple(op)
+        if op == ("<close>",):
+            info = s.close()
+            print("end of history (drop the library object) ->", "ok" if info is None else info)
+            return 1 if info is not None else 0
         if op not in s.enabled():
             print("op", op, "not enabled (diverged)")
             return 0
